@@ -120,10 +120,4 @@ def diff_c01(program: dict, po=None, so=None) -> list[dict]:
             d = compare_frames(a["frame"], b["frame"], bool(st.get("ordered")))
             if d:
                 diffs.append(dict(kind="frames_differ", stmt=st["id"], op="export", detail=d, ordered=bool(st.get("ordered"))))
-        elif "cache" in a and "cache" in b:
-            ca, cb = dict(a["cache"]), dict(b["cache"])
-            for c in (ca, cb):
-                c.pop("backend", None)
-            if ca != cb:
-                diffs.append(dict(kind="cache_differs_across_backends", stmt=st["id"], op=st["op"]))
     return diffs
